@@ -556,7 +556,14 @@ class Harness(object):
     with sched.atomic(self.sim):
       exp = self.cur_ctx(st)
       r, w = os.pipe()
-      pid = os.fork()
+      try:
+        pid = os.fork()
+      except OSError:
+        # (process table full: the probe is skipped, not failed)
+        os.close(r)
+        os.close(w)
+        self.stats['fork_probes_skipped'] = self.stats.get('fork_probes_skipped', 0) + 1
+        return
       if pid == 0:
         try:
           c = self.ag_ctx.control_status_ctx()
